@@ -142,12 +142,13 @@ Covered(d, r) ==
       IF WinOf(n) = r.from THEN r.lo <= n /\ n < r.next
       ELSE \E w \in d.win : w.from = WinOf(n) /\ w.lo <= n
 
-(* the database an earlier life left: chain 0..Base pruned up to Base (nothing for Base = 0) *)
+(* the database an earlier life left: chain 0..Base pruned up to Base, which the L1 head
+   Base + Retained allowed (nothing for Base = 0) *)
 ImageDisk ==
   IF Base = 0
   THEN [height |-> -1, hdr |-> {}, com |-> {}, su |-> {}, txs |-> {}, h2n |-> {}, txl |-> {}, hist |-> {}, l1 |-> -1, win |-> {}]
   ELSE [height |-> Base, hdr |-> Max2(0, Base - Lag)..Base, com |-> {Base}, su |-> {Base}, txs |-> {Base},
-        h2n |-> (Base - 1)..Base, txl |-> {Base}, hist |-> {Base}, l1 |-> -1,
+        h2n |-> (Base - 1)..Base, txl |-> {Base}, hist |-> {Base}, l1 |-> Base + Retained,
         win |-> IF Base % W = W - 1 THEN {[from |-> WinOf(Base), lo |-> WinOf(Base)]} ELSE {}]
 
 (* ... and the blocks up to InitH stored by this one *)
@@ -156,7 +157,7 @@ InitFill == LET r == InitResult(ImageDisk) IN Fill(r.win, r.rf.from, r.rf.lo, In
 InitDisk ==
   LET ns == Base..InitH IN
   [height |-> InitH, hdr |-> Max2(0, Base - Lag)..InitH, com |-> ns, su |-> ns, txs |-> ns,
-   h2n |-> Max2(0, Base - 1)..InitH, txl |-> ns, hist |-> ns, l1 |-> -1, win |-> InitFill.win]
+   h2n |-> Max2(0, Base - 1)..InitH, txl |-> ns, hist |-> ns, l1 |-> ImageDisk.l1, win |-> InitFill.win]
 
 (* sampleHeight: the smallest young block in [sampled, height], or height when there is none
    (ErrNoBlockInWindow); needs the header timestamps of the probed range. *)
